@@ -125,6 +125,7 @@
 #define AAF_PERIOD		(NSEC_PER_SEC * AAF_NUM_SAMPLES / AAF_SAMPLE_RATE)
 #define MCLK_PERIOD		AAF_PERIOD
 #define MCLKLIST_TS_PER_CRF	(CRF_SAMPLE_RATE / CRF_TIMESTAMPS_PER_SEC)
+#define MCLK_LOOKUP_MAX		(4 * MCLKLIST_TS_PER_CRF)
 
 #define NSEC_PER_SEC		1000000000ULL
 #define NSEC_PER_MSEC		1000000ULL
@@ -258,14 +259,22 @@ static uint64_t get_next_mclk_timestamp(void)
     return mclk_timestamp;
 }
 
-static uint64_t mclk_lookup(uint32_t avtp_time)
+/* Find the media clock timestamp the AAF presentation time 'avtp_time' belongs
+ * to. The search is bounded: an AAF timestamp that matches none of the next
+ * MCLK_LOOKUP_MAX media clock timestamps is not on the media clock grid (and
+ * could otherwise never be reached at all).
+ */
+static bool mclk_lookup(uint32_t avtp_time, uint64_t *mclk_timestamp)
 {
-    uint64_t mclk_timestamp = get_next_mclk_timestamp();
+    int i;
 
-    while (mclk_timestamp % (1ULL << 32) != avtp_time)
-        mclk_timestamp = get_next_mclk_timestamp();
+    for (i = 0; i < MCLK_LOOKUP_MAX; i++) {
+        *mclk_timestamp = get_next_mclk_timestamp();
+        if (*mclk_timestamp % (1ULL << 32) == avtp_time)
+            return true;
+    }
 
-    return mclk_timestamp;
+    return false;
 }
 
 static bool is_valid_crf_pdu(struct avtp_crf_pdu *pdu)
@@ -713,7 +722,14 @@ static int handle_aaf_pdu(struct avtp_stream_pdu *pdu)
     avtp_time = val;
 
     if (need_mclk_lookup) {
-        mclk_time = mclk_lookup(avtp_time);
+        uint64_t mclk_timestamp;
+
+        if (!mclk_lookup(avtp_time, &mclk_timestamp)) {
+            fprintf(stderr, "AAF: no media clock timestamp for AVTP time %" PRIu32 "\n",
+                                    avtp_time);
+            return 0;
+        }
+        mclk_time = mclk_timestamp;
         need_mclk_lookup = false;
     } else {
         mclk_time = get_next_mclk_timestamp();
